@@ -165,6 +165,7 @@ structure DSt where
   sepJoined : Nat := 0
   cachedChecked : Nat := 0
   cachedDiverged : Nat := 0
+  crashes : Nat := 0
   seen : Std.HashSet UInt64 := {}
   nontrivial : Nat := 0
   mismatches : Nat := 0
@@ -511,7 +512,8 @@ def handleX (d : DSt) (n : Nat) (line : String) (pre post : List String) : IO DS
   match pre with
   | svc :: rest =>
     match parseBool? svc, parseCmdArgs d.plugin rest with
-    | some svc, some (cmd, args, [ex, outh, tmo, slp]) =>
+    | some svc, some (cmd, args, ex :: outh :: tmo :: slp :: term) =>
+      if term.length > 1 then IO.println s!"BADLINE line={n}"; return d else
       match ex.toInt?, unhex outh, tmo.toNat?, slp.toNat?, parseRunObs post with
       | some exit, some out, some tmo, some slp, some o =>
         let d := noteNontrivial { d with steps := d.steps + 1, nX := d.nX + 1 } line
@@ -595,6 +597,10 @@ def handle (d : DSt) (n : Nat) (line : String) : IO DSt := do
       else if lvl == "h" then return { d with host := { d.host with attrs := setAssoc d.host.attrs a (.str v) } }
       else IO.println s!"BADLINE line={n}"; return d
     | none => IO.println s!"BADLINE line={n}"; return d
+  | "Z" :: sig :: _ =>
+    -- the process executing this operation died (signal) or hung (14): per-operation alarm
+    IO.println s!"SPECFAIL line={n} case={d.caseNo} clause={Clause.noCrash.name} class=- signal={sig}"
+    return { d with steps := d.steps + 1, crashes := d.crashes + 1, specfails := d.specfails + 1 }
   | "M" :: rest => handleM d n line rest post
   | "G" :: rest => handleG d n line rest post
   | "X" :: rest => handleX d n line rest post
@@ -637,4 +643,4 @@ def handle (d : DSt) (n : Nat) (line : String) : IO DSt := do
 def main : IO Unit := do
   let stdin ← IO.getStdin
   let d ← foldLines stdin handle ({} : DSt)
-  IO.println s!"STATS cases={d.caseNo} steps={d.steps} macro_strings={d.nM} resolutions={d.nG} spawns={d.nX} cached_macro_strings={d.nH} cached_resolutions={d.nK} cached_spawns={d.nY} cached_checked={d.cachedChecked} cached_diverged={d.cachedDiverged} layout_checked={d.layoutChecked} sep_joined={d.sepJoined} outputs={d.nP} exits={d.nE} sh_lines={d.nW} err_recursion={d.errRec} err_unclosed={d.errUnclosed} err_mixing={d.errMixing} err_required={d.errRequired} unsupported={d.unsupported} missing={d.missing} arrays={d.arrays} sh_checked={d.shLines} sh_outside={d.shOutside} tie_permutations={d.tiePerm} ran={d.spawned} not_run={d.notRun} timeouts={d.timeouts} dq_cases={d.dqCases} dq_interpreted={d.dqInterpreted} verbatim_checked={d.verbatimChecked} nontrivial={d.nontrivial} mismatches={d.mismatches} specfails={d.specfails}"
+  IO.println s!"STATS cases={d.caseNo} steps={d.steps} macro_strings={d.nM} resolutions={d.nG} spawns={d.nX} cached_macro_strings={d.nH} cached_resolutions={d.nK} cached_spawns={d.nY} cached_checked={d.cachedChecked} cached_diverged={d.cachedDiverged} crashes={d.crashes} layout_checked={d.layoutChecked} sep_joined={d.sepJoined} outputs={d.nP} exits={d.nE} sh_lines={d.nW} err_recursion={d.errRec} err_unclosed={d.errUnclosed} err_mixing={d.errMixing} err_required={d.errRequired} unsupported={d.unsupported} missing={d.missing} arrays={d.arrays} sh_checked={d.shLines} sh_outside={d.shOutside} tie_permutations={d.tiePerm} ran={d.spawned} not_run={d.notRun} timeouts={d.timeouts} dq_cases={d.dqCases} dq_interpreted={d.dqInterpreted} verbatim_checked={d.verbatimChecked} nontrivial={d.nontrivial} mismatches={d.mismatches} specfails={d.specfails}"
